@@ -10,7 +10,9 @@ import sys, os
 sys.path.insert(0, os.path.dirname(os.path.abspath(__file__)))
 from common import *
 ensure_env()
-import argparse, importlib, random, traceback, time, json
+import argparse, importlib, random, traceback, time, json, logging, warnings
+logging.disable(logging.CRITICAL)
+warnings.filterwarnings("ignore")
 
 
 class Ctx:
